@@ -49,6 +49,12 @@ def main(argv):
         first = {}
         for i in idxs:
             sc = mod.generate(runner.derive_seed(base, pid, i), "quick", i)
+            for tier in ("quick", "thorough"):
+                # a scenario is exactly what its replay file holds: it survives the trip through JSON unchanged
+                sct = sc if tier == "quick" else mod.generate(runner.derive_seed(base, pid, i), tier, i)
+                if json.loads(json.dumps(sct)) != sct:
+                    print(f"selftest {pid}: the {tier} scenario of index {i} does not survive JSON (a replay file would hold something else)")
+                    bad += 1
             r1 = runner.run_one(mod, sc)
             r2 = runner.run_one(mod, mod.generate(runner.derive_seed(base, pid, i), "quick", i))
             if "harness_error" in r1 or "harness_error" in r2:
